@@ -193,6 +193,31 @@ Theorem model_sort_is_the_sorted_order : forall (A : Type) (kv : string -> A -> 
 Proof. exact (@model_sort_is_the_sorted_order_lemma). Qed.
 Print Assumptions model_sort_is_the_sorted_order.
 
+
+(* ---------------- representatives of groups (list: one node per function name / per source file) ------- *)
+
+(* a slice holding ONE representative per group, chosen in iteration (map) order, is sorted by a
+   comparator whose first step is the group key -- for every such sort in the source now *)
+Theorem representative_sorts_keyed_by_group : forallb (rep_sort_ok chain_named) rep_sort_sites = true.
+Proof. vm_compute. reflexivity. Qed.
+Print Assumptions representative_sorts_keyed_by_group.
+
+(* then the order of the groups is independent of the choice of representatives (all carriers,
+   all chains with an ok first step, all lists) *)
+Theorem representative_order_independent : forall (A : Type) (kv : string -> A -> val) s r,
+  step_ok s = true -> group_order_independent (kv (guard s)) (less kv (s :: r)).
+Proof. exact (@representative_order_independent_lemma). Qed.
+Print Assumptions representative_order_independent.
+
+(* the condition is needed: with a weight-first order the file order follows the representative *)
+Theorem representative_order_dependent_if_not_keyed : exists (c : chain) (l1 l2 : list node),
+  map (fun n => ni_file (n_info n)) l1 = map (fun n => ni_file (n_info n)) l2 /\
+  map (node_kv ".Info.File") (sort_by node_kv c l1) <> map (node_kv ".Info.File") (sort_by node_kv c l2).
+Proof.
+  eexists. eexists. eexists. split; [|exact representative_order_dependent_witness]. reflexivity.
+Qed.
+Print Assumptions representative_order_dependent_if_not_keyed.
+
 (* ---------------- (b) map iteration ---------------- *)
 
 (* every `range` over a map (or unresolved operand) in the output-path packages is classified *)
